@@ -231,14 +231,32 @@ def r8(ctx):
 def boundary_rule(ctx, rid):
     """exactness of the n-bit range tests of NumberDataType::parseInput, decided by evaluating each rejection condition
     (a boolean expression over the parsed wide value, the bit count and constants - nothing else of the program) on the
-    boundary points of the n-bit range for n = 8, 16 and 32"""
+    boundary points of the n-bit range for n = 8, 16 and 32; also for the float entry point getRawValueFromFloat"""
     ctx.rule(rid, 'the range tests of NumberDataType::parseInput reject exactly the values outside the n-bit range of the type: '
              'signed types accept -2^(n-1) .. 2^(n-1)-1, unsigned types 0 .. 2^n-1, decided for each rejection condition '
              'on the five boundary points around each limit (n = 8, 16, 32). A test that is too lax lets a value wrap into '
              'the sign bit or the next field (C07), one that is too strict rejects a text that decoding produces (C06)',
-             minimum=4, star=True)
+             minimum=6, star=True)
     fb = ctx.fb
-    fn = fb.fn('ebusd::NumberDataType::parseInput')
+    total = 0
+    # the SIG flag: the hasFlag() atom under which the strtol (signed) parse of parseInput sits
+    pi = fb.fn('ebusd::NumberDataType::parseInput')
+    sigkey = None
+    for nid, d, rhs, op, lhs in pi.assignments():
+        if rhs is not None and any(pi.nodes[x].get('callee') == 'strtol' for x in pi.walk(rhs)):
+            for k3, p3 in ((a[0], a[1]) for a in pi.atoms(nid)):
+                if k3.startswith('this.hasFlag(#') and p3:
+                    sigkey = k3
+    if sigkey is None:
+        raise AnalysisBroken('%s: signed parse branch of parseInput not found' % rid)
+    for fname in ('ebusd::NumberDataType::parseInput', 'ebusd::NumberDataType::getRawValueFromFloat'):
+        total += _boundary_fn(ctx, rid, fb.fn(fname), sigkey)
+    if total < 6:
+        raise AnalysisBroken('%s: only %d range tests recognised' % (rid, total))
+
+
+def _boundary_fn(ctx, rid, fn, sigkey):
+    fb = ctx.fb
     ctx.touch(fn)
     oor = None
     for en, e in fb.enums.items():
@@ -246,9 +264,20 @@ def boundary_rule(ctx, rid):
             if x['name'] == 'RESULT_ERR_OUT_OF_RANGE':
                 oor = x['v']
     wide = {}
-    for nid, d, rhs, op, lhs in fn.assignments():
-        if d and rhs is not None and op == 'init' and any(fn.nodes[x].get('callee') in ('strtol', 'strtoul', 'strtod') for x in fn.walk(rhs)):
-            wide[d] = d.split(':')[-1]
+    for prm in fn.params:
+        if (prm.get('t') or '') in ('float', 'double') and prm.get('decl'):
+            wide[prm['decl']] = prm['name']
+    grew = True
+    while grew:
+        grew = False
+        for nid, d, rhs, op, lhs in fn.assignments():
+            if d and d not in wide and rhs is not None and op == 'init':
+                direct = any(fn.nodes[x].get('callee') in ('strtol', 'strtoul', 'strtod') for x in fn.walk(rhs))
+                r0 = fn.nodes.get(fn.strip(rhs, casts=True), {})
+                copy = r0.get('k') == 'DeclRefExpr' and r0.get('decl') in wide
+                if direct or copy:
+                    wide[d] = d.split(':')[-1]
+                    grew = True
 
     def ev(x, env):
         x = fn.strip(x, casts=True)
@@ -296,6 +325,7 @@ def boundary_rule(ctx, rid):
                 return None
             try:
                 return {'+': lambda: a + b, '-': lambda: a - b, '*': lambda: a * b, '<<': lambda: int(a) << int(b),
+                        '/': lambda: (a // b if isinstance(a, int) and isinstance(b, int) else a / b),
                         '<': lambda: a < b, '<=': lambda: a <= b, '>': lambda: a > b, '>=': lambda: a >= b,
                         '==': lambda: a == b, '!=': lambda: a != b}[op]()
             except (KeyError, ValueError, TypeError):
@@ -316,13 +346,6 @@ def boundary_rule(ctx, rid):
             continue
         wd = used[0]
         atoms = dict((a[0], a[1]) for a in fn.atoms(p))
-        # the SIG flag: the hasFlag() atom under which the strtol (signed) parse sits
-        sigkey = None
-        for nid, d, rhs, op, lhs in fn.assignments():
-            if rhs is not None and any(fn.nodes[x].get('callee') == 'strtol' for x in fn.walk(rhs)):
-                for k3, p3 in ((a[0], a[1]) for a in fn.atoms(nid)):
-                    if k3.startswith('this.hasFlag(#') and p3:
-                        sigkey = k3
         sig = atoms.get(sigkey) if sigkey else None
         if sig is None:
             continue
@@ -340,6 +363,16 @@ def boundary_rule(ctx, rid):
                             any(fn.nodes[x].get('k') == 'DeclRefExpr' and fn.nodes[x].get('decl') == d for x in fn.walk(cond)):
                         env[d] = ev(rhs, dict(env))
                 rej = ev(cond, env)
+                # values that cannot reach this test (a dominating test on the same variable sends them elsewhere, e.g. to
+                # another error return) count as rejected
+                import re as _re
+                for a_ in fn.atoms(p):
+                    m_ = _re.match(r'^\(%s (<|<=|==) (?:#(-?\d+)|f(-?[\d.]+))\)$' % _re.escape(wide[wd]), a_[0])
+                    if m_:
+                        c_ = int(m_.group(2)) if m_.group(2) is not None else float(m_.group(3))
+                        holds = {'<': val < c_, '<=': val <= c_, '==': val == c_}[m_.group(1)]
+                        if holds != bool(a_[1]):
+                            rej = True
                 want = val < lo or val > hi
                 if not sig and val < 0 and 'unsigned long' in ''.join((fn.nodes[x].get('t') or '') for x in fn.walk(cond) if fn.nodes[x].get('decl') == wd):
                     continue    # an unsigned long cannot hold a negative value: the sign is tested on the text (C07.R6)
@@ -349,8 +382,7 @@ def boundary_rule(ctx, rid):
                     problems.append('%d-bit %s value %d is %s' % (bits_, 'signed' if sig else 'unsigned', val, 'rejected' if rej else 'accepted'))
         ctx.ob(rid, fn, p, not problems, '%s range test of %s' % ('signed' if sig else 'unsigned', wide[wd]),
                '; '.join(problems[:4]) or 'rejects exactly the values outside the n-bit range (24 boundary points)')
-    if n < 4:
-        raise AnalysisBroken('%s: only %d range tests recognised in parseInput' % (rid, n))
+    return n
 
 
 def run(ctx):
